@@ -8,7 +8,7 @@ cd $WT
 if ! git apply "$MD/patch.diff" 2>/dev/null; then echo "APPLY-FAILED on current HEAD"; cd /; git -C /repo worktree remove --force $WT; exit 3; fi
 T=$(PYTHONPATH=$WT /venv/bin/python -m pytest -q -p no:cacheprovider --deselect tests/test_poly.py::test_basic --deselect tests/test_poly.py::test_degree 2>&1 | tail -1)
 echo "tests-with-patch: $T"
-cd /verif
+cd "$(dirname "$(readlink -f "${BASH_SOURCE[0]}")")/.."
 PROPS=${@:-$(/venv/bin/python -c "import json;print(' '.join(c['property_id'] for c in json.load(open('MANIFEST.json'))['checks']))")}
 for P in $PROPS; do
   OUT=$(FORMULAE_REPO=$WT PYTHONPATH=$WT VERIF_SEED=${SEED:-0} ./check $P --tier quick 2>&1); RC=$?
